@@ -4,27 +4,8 @@ use super::*;
 use crate::MithrilMembershipDigest as MD;
 include!("common.inc");
 
-fn stub_entry_from_bytes(_bytes: &[u8]) -> StmResult<ClosedRegistrationEntry> {
-    if kani::any() {
-        let vk: crate::VerificationKeyForConcatenation = unsafe { std::mem::zeroed() };
-        Ok(ClosedRegistrationEntry::new(vk, kani::any()))
-    } else {
-        Err(anyhow::anyhow!("entry (stub)"))
-    }
-}
-fn stub_sig_from_bytes<D: MembershipDigest>(_bytes: &[u8]) -> StmResult<SingleSignature> {
-    Err(anyhow::anyhow!("sig (stub)"))
-}
 
-never_panics!(c05_sig_reg_legacy_len0, 0, 3, SingleSignatureWithRegisteredParty::from_bytes_legacy::<MD>,
-    kani::stub(crate::protocol::key_registration::closed_registration_entry::ClosedRegistrationEntry::from_bytes, stub_entry_from_bytes),
-    kani::stub(crate::protocol::single_signature::signature::SingleSignature::from_bytes, stub_sig_from_bytes));
-never_panics!(c05_sig_reg_legacy_len8, 8, 3, SingleSignatureWithRegisteredParty::from_bytes_legacy::<MD>,
-    kani::stub(crate::protocol::key_registration::closed_registration_entry::ClosedRegistrationEntry::from_bytes, stub_entry_from_bytes),
-    kani::stub(crate::protocol::single_signature::signature::SingleSignature::from_bytes, stub_sig_from_bytes));
-never_panics!(c05_sig_reg_legacy_len24, 24, 3, SingleSignatureWithRegisteredParty::from_bytes_legacy::<MD>,
-    kani::stub(crate::protocol::key_registration::closed_registration_entry::ClosedRegistrationEntry::from_bytes, stub_entry_from_bytes),
-    kani::stub(crate::protocol::single_signature::signature::SingleSignature::from_bytes, stub_sig_from_bytes));
-never_panics!(c05_sig_reg_dispatch_len9, 9, 3, SingleSignatureWithRegisteredParty::from_bytes::<MD>,
-    kani::stub(crate::protocol::key_registration::closed_registration_entry::ClosedRegistrationEntry::from_bytes, stub_entry_from_bytes),
-    kani::stub(crate::protocol::single_signature::signature::SingleSignature::from_bytes, stub_sig_from_bytes));
+never_panics_sig_reg!(c05_sig_reg_legacy_len0, 0, 3, SingleSignatureWithRegisteredParty::from_bytes_legacy::<MD>);
+never_panics_sig_reg!(c05_sig_reg_legacy_len8, 8, 3, SingleSignatureWithRegisteredParty::from_bytes_legacy::<MD>);
+never_panics_sig_reg!(c05_sig_reg_legacy_len24, 24, 3, SingleSignatureWithRegisteredParty::from_bytes_legacy::<MD>);
+never_panics_sig_reg!(c05_sig_reg_dispatch_len9, 9, 3, SingleSignatureWithRegisteredParty::from_bytes::<MD>);
